@@ -266,6 +266,14 @@ def resetCmd (soft mixed hard : Bool) (arg logHead : Bytes) (snaps : List (Bytes
             | none => .err
             | some (_, es) => .ok ⟨t, if s then idx else es, h⟩
 
+/-! ### `goit log [-n k]` -/
+
+/-- `goit log`: refused before the first commit; otherwise the walk from HEAD's commit, bounded by `-n`
+    (default 5: regenerated fact) -/
+def logCmd (H : HashFn) (st : Store) (anyBranches : Bool) (head : Bytes) (k : Int) : Res (List Bytes) :=
+  if !anyBranches then .err
+  else (History.log H st head k).map (fun l => l.map (·.1))
+
 /-- `Index.Reset(hash)`: commit → its tree → `walkTree` → `getEntriesFromTree`; the new staging area -/
 def resetEntries (H : HashFn) (s : Store) (depth : Nat) (commitId : Bytes) : Res (List Entry) :=
   match Store.get H s commitId with
